@@ -578,3 +578,25 @@ pub fn c14_mint_builder_range<S: Src>(s: &mut S) {
     assert!(v == expect, "MintBuilder stores {} for {} {} {}", v, old, if func == 0 { "+" } else { "set to" }, off);
     assert!(v >= lo && v <= hi, "MintBuilder hands out the signed amount {} outside -2^64..2^64-1 (its CBOR form truncates to {})", v, Int::from_bytes(got.to_bytes()).map(|i| i.to_str()).unwrap_or("undecodable".to_string()));
 }
+
+// ---------------------------------------------------------------- C14: decimal strings are read exactly or refused
+pub fn c14_decimal_strings<S: Src>(s: &mut S) {
+    let (neg, lo, hi) = (s.u8(), s.u64(), s.u64());
+    let mag: u128 = ((hi as u128) << 64) | lo as u128;
+    let text = if neg != 0 { format!("-{}", mag) } else { format!("{}", mag) };
+    let exact: Option<i128> = if neg != 0 { if mag <= (1u128 << 127) { Some((mag as i128).wrapping_neg()) } else { None } } else if mag < (1u128 << 127) { Some(mag as i128) } else { None };
+    let (rlo, rhi) = (-(1i128 << 64), (1i128 << 64) - 1);
+    for via_json in [false, true] {
+        let r = if via_json { Int::from_json(&format!("\"{}\"", text)).ok() } else { Int::from_str(&text).ok() };
+        if let Some(i) = r {
+            let back: i128 = i.to_str().parse().expect("to_str is a decimal number");
+            assert!(Some(back) == exact, "Int::{}({}) reads {}", if via_json { "from_json" } else { "from_str" }, text, back);
+            assert!(back >= rlo && back <= rhi, "Int::{}({}) hands out an Int outside -2^64..2^64-1 (its CBOR form is {:02x?})", if via_json { "from_json" } else { "from_str" }, text, i.to_bytes());
+        }
+    }
+    if neg == 0 {
+        if let Ok(b) = BigNum::from_str(&text) {
+            assert!(mag <= u64::MAX as u128 && u64::from(b) as u128 == mag, "BigNum::from_str({}) reads {}", text, u64::from(b));
+        }
+    }
+}
